@@ -4,7 +4,7 @@
    fixes/C11-*.diff applied; its routes are re-proved equal to the classification regenerated from the real stack in
    Proofs/SideC11.v.  Worlds (mappings, codes, domains, online clients), connection classes, bodies and packet identity
    fields are arbitrary. *)
-From TX Require Import Model.Commands Proofs.Commands Proofs.SideC11 Gen.C11.
+From TX Require Import Model.CmdContext Proofs.CmdContext Model.Commands Proofs.Commands Proofs.SideC11 Gen.C11.
 From Coq Require Import NArith List.
 Import ListNotations.
 Open Scope N_scope.
@@ -157,6 +157,36 @@ Theorem C11_caching_executor_refuted :
    /\ map res_deliv (fst (run_history (current_table ++ [aux_row_current]) w_demo hs)) = [[]; []]).
 Proof. exact (conj memo_executor_refuted memo_executor_notify_refuted). Qed.
 Print Assumptions C11_caching_executor_refuted.
+
+(* ---- overlapping commands -----------------------------------------------------------------------------------
+   Execute returns before the handler has finished for one-way commands and for duplex commands that outlive the RPC
+   timeout; other commands (of other connections) are dispatched meanwhile.  One thread = one command in flight; atomic
+   steps: dispatch (createCommandContext), ALook (the handler / the response path reads its context), AReturn (Execute
+   returns).  For ANY number of commands, ANY scripts and ANY interleaving (Base/Threads.v schedules), everything a handler
+   ever reads off its context is its own command: the connection it arrived on, the identity the registry held for that
+   connection at dispatch, its own body — the context of a handler is immutable after dispatch. *)
+Theorem C11_handler_context_immutable_all_interleavings :
+  forall (ths : list (ctxval * list action)) (sched : list nat),
+  Forall2 (fun p obs => Forall (eq (fst p)) obs) ths (observations (ctx_run false ths sched)).
+Proof. exact context_immutable_all_schedules. Qed.
+Print Assumptions C11_handler_context_immutable_all_interleavings.
+
+(* in particular with the identity of the Commands model: a command sent on connection #i in world w is handled, for the
+   whole run of its handler, as conn_identity w (KConn i) *)
+Theorem C11_handler_identity_is_senders :
+  forall (w : world) (cmds : list (N * N * list action)) (sched : list nat),
+  let ths := map (fun c => let '(i, tag, script) := c in ((i, conn_identity w (KConn i), tag), script)) cmds in
+  Forall2 (fun p obs => Forall (eq (fst p)) obs) ths (observations (ctx_run false ths sched)).
+Proof. intros w cmds sched. exact (context_immutable_all_schedules _ sched). Qed.
+Print Assumptions C11_handler_identity_is_senders.
+
+(* contexts recycled through a pool when Execute returns (a seeded breaking change) are refuted: the handler of client 1's
+   one-way command, still running when client 2's command is dispatched, then reads connection 2 / client 2 / the other body *)
+Theorem C11_pooled_context_refuted :
+  observations (ctx_run true ths_demo sched_demo) = [[(1, 1, 0); (2, 2, 1)]; []]
+  /\ observations (ctx_run false ths_demo sched_demo) = [[(1, 1, 0); (1, 1, 0)]; []].
+Proof. exact pooled_context_refuted. Qed.
+Print Assumptions C11_pooled_context_refuted.
 
 (* the three properties hold for ANY dispatch table whose rows carry the columns their effect class requires
    (row_sound: identity from the connection, auth gate, party relation) — the table is data, the check is boolean *)
